@@ -127,11 +127,10 @@ Definition vcanon (t : vty) (k v : bytes) : pres bytes :=
   | TyLeafHashesKeySource => guard (leafhashes_keysource_ok v) v
   | TyTapTree => canon_taptree v
   | TyTweak => guard (len_is 32 v && tweak_ok v) v
-  (* PedersenCommitment::from_slice / Generator::from_slice hand `bytes.as_ptr()` to libsecp without looking at the length:
-     33 bytes are read whatever the slice holds.  Longer values are thereby truncated; SHORTER ONES ARE READ PAST THEIR END
-     (finding F18) — the model rejects them, the harness never feeds them to the decoder. *)
-  | TyPedersen => if (33 <=? length v)%nat then guard (conf_wf pt_ok 8 9 (firstn 33 v)) (firstn 33 v) else PErr EInvalid
-  | TyGenerator => if (33 <=? length v)%nat then guard (conf_wf pt_ok 10 11 (firstn 33 v)) (firstn 33 v) else PErr EInvalid
+  (* the PSET Deserialize impls test `bytes.len() != 33` before PedersenCommitment::from_slice / Generator::from_slice
+     (fix 838e50c; anchored by translator/tables_C07.py) *)
+  | TyPedersen => guard (conf_wf pt_ok 8 9 v) v
+  | TyGenerator => guard (conf_wf pt_ok 10 11 v) v
   | TyRangeProof => guard (rangeproof_ok v) v
   | TySurjProof => guard (surjproof_ok v) v
   | TyBtcTx => guard (btctx_ok v) v
